@@ -98,13 +98,13 @@ type common struct {
 }
 
 var subcommands = map[string]func(common){
-	"tbl-redirect": func(c common) { table(c, tbldrv.RedirectCase) },
-	"tbl-verifier": func(c common) { table(c, tbldrv.VerifierCase) },
+	"tbl-redirect":  func(c common) { table(c, tbldrv.RedirectCase) },
+	"tbl-verifier":  func(c common) { table(c, tbldrv.VerifierCase) },
 	"tbl-signature": func(c common) { table(c, tbldrv.SignatureCase) },
 	"tbl-assertion": func(c common) { table(c, tbldrv.AssertionCase) },
-	"tbl-reqobj": func(c common) { table(c, tbldrv.RequestObjectCase) },
-	"tbl-authresp": func(c common) { table(c, tbldrv.AuthResponseCase) },
-	"tbl-codec": func(c common) { table(c, tbldrv.CodecCase) },
+	"tbl-reqobj":    func(c common) { table(c, tbldrv.RequestObjectCase) },
+	"tbl-authresp":  func(c common) { table(c, tbldrv.AuthResponseCase) },
+	"tbl-codec":     func(c common) { table(c, tbldrv.CodecCase) },
 	"tbl-discovery": func(c common) { tbldrv.DiscWorldPath = c.world; table(c, tbldrv.DiscoveryCase) },
 	"tbl-isolation": func(c common) {
 		tbldrv.DiscWorldPath = c.world
@@ -113,7 +113,7 @@ var subcommands = map[string]func(common){
 		fmt.Printf("EXECUTED cases=%d\n", n)
 	},
 	"tbl-handler": func(c common) { tbldrv.HandlerWorldPath = c.world; table(c, tbldrv.HandlerCase) },
-	"tbl-faults": func(c common) { tbldrv.FaultWorldPath = c.world; table(c, tbldrv.FaultCase) },
+	"tbl-faults":  func(c common) { tbldrv.FaultWorldPath = c.world; table(c, tbldrv.FaultCase) },
 }
 
 func table(c common, f func(*tbldrv.Case) tbldrv.M) {
